@@ -62,8 +62,19 @@ def parseOracles (j : Json) : R Oracles := do
          writeFault := ← fldBool j "writeFault", addFail := ← boolList (← fldArr j "addFail"),
          logFault := ← fldBool j "logFault" }
 
+def parseIso (j : Json) : R (Option IsoAttr) := do
+  match j with
+  | Json.null => pure none
+  | Json.str "nonstr" => pure (some IsoAttr.nonstr)
+  | v => do pure (some (IsoAttr.lit (← fldS v "lit")))
+
+def jTs : Ts → Json
+  | .iso ms => jObj [("k", jStr "iso"), ("ms", jInt ms)]
+  | .lit s => jObj [("k", jStr "lit"), ("s", jS s)]
+  | .fallback ms => jObj [("k", jStr "fallback"), ("ms", jInt ms)]
+
 def parseTurn (j : Json) : R TurnIn := do
-  pure { agent := ← fldS j "agent", turn := ← fldS j "turn", nowMs := ← fldInt j "nowMs",
+  pure { agent := ← fldS j "agent", turn := ← fldS j "turn", nowMs := ← fldOptInt j "nowMs", isoPreset := ← parseIso (fldD j "iso" Json.null),
          dry := ← fldBool j "dry", t4on := ← fldBool j "t4on", planFlag := ← fldBool j "plan",
          stateFlag := ← fldBool j "sflag", cfg := ← parseCfg (← fld j "cfg"),
          utter := ← fldS j "utter", items := ← strList (← fldArr j "items"),
@@ -81,7 +92,7 @@ def jReason : Option Reason → Json
 
 def jWritten (w : Written) : Json :=
   jObj [("agent", jS w.agent), ("turn", jS w.turn), ("slot", jNat w.slot), ("idText", jS w.idText),
-        ("text", jS w.text), ("tsMs", jInt w.tsMs), ("vec", jBool w.vec)]
+        ("text", jS w.text), ("ts", jTs w.ts), ("vec", jBool w.vec)]
 
 def jLog : Option LogRec → Json
   | none => Json.null
